@@ -9,7 +9,7 @@ EXPLANATION = ("CrossHair (z3): the insertion history of <=4 distinct properties
                "parameters each) is a symbolic permutation; serialisation with sorting on must not depend on it, with sorting "
                "off must reproduce it at every nesting level; every run serialises twice and compares a deep snapshot.")
 ASSUMPTIONS = [
-    "NOT CLAIMED: independence from the interpreter hash seed across processes - there is no symbolic handle on PYTHONHASHSEED (the checks run with PYTHONHASHSEED=0)",
+    "hash seed: there is no symbolic handle on PYTHONHASHSEED; the clause is decided as agreement of the bytes with a hash-free model rendering (lists and sorted() only) on a tree with repeated and multi-valued parameter entries, list-valued RRULE parts and categories, with one registered condition per PYTHONHASHSEED in {0, 1, 2, 4242}; all other conditions run with PYTHONHASHSEED=0",
     "<= 4 distinct properties out of a pool of 8 (text, zoned date-time, uid, X- with 3 params, attendee with 3 params, rrule, duration, categories); Event and Todo; optional two nested alarms",
     "parameter order independence is exercised through the 3-parameter properties of the pool (Component.add stores the parameter dict in the given order; Parameters.to_ical sorts) and in C08 order",
     "values are concrete; the permutation and the selection are symbolic",
@@ -26,5 +26,8 @@ CONDITIONS = (
        for a in range(0, 5) for kind in (0, 1) for nested in (False, True)]
     + [X("nested-unsorted", "c10.py", "h_nested_unsorted", timeout=200, what="sorted=False reaches nested components; subcomponents keep insertion order", bound="3! x 3! insertion orders of a VEVENT and its VALARM inside a VCALENDAR"),
        X("repeats", "c10.py", "h_repeats", timeout=100, what="repeated properties of one name keep insertion order", bound="3 repeats, all orders, both flags"),
+       *[X("hashseed[%d]" % hs, "c10.py", "h_hashseed", timeout=700, env={"PYTHONHASHSEED": str(hs)},
+           what="bytes equal a hash-free model rendering under PYTHONHASHSEED=%d: multi-valued parameters with repeated entries in symbolic order, symbolic parameter insertion order" % hs,
+           bound="3^3 MEMBER x 2^2 DELEGATED-TO selections x 6 parameter insertion orders") for hs in (0, 1, 2, 4242)],
        X("datetime-pure", "c10.py", "h_datetime_pure", timeout=100, what="vDatetime.to_ical TZID side effect is idempotent and invisible in the bytes", bound="floating / UTC / zoned")]
 )
